@@ -7,9 +7,49 @@ from tfsa.resolve import const_str
 MISSING = object()
 
 
+class _Subst(ast.NodeTransformer):
+    def __init__(self, mapping):
+        self.mapping = mapping
+
+    def visit_Name(self, node):
+        return self.mapping.get(node.id, node) if isinstance(node.ctx, ast.Load) else node
+
+
+def loop_instances(ctx, fn, call):
+    """add_argument inside `for a, b in ((..), (..))` over a literal table: one {loop variable: literal node} map per table
+    row (nested loops multiply).  [{}] when the call is not inside such a loop; None when a loop's table cannot be read."""
+    maps = [{}]
+    p = ctx.prog.parent.get(call)
+    while p is not None and p is not fn.node:
+        if isinstance(p, (ast.While, ast.AsyncFor)):
+            return None
+        if isinstance(p, ast.For):
+            it = p.iter
+            if isinstance(it, ast.Name):
+                lits = [n.value for n in own_nodes(fn.node) if isinstance(n, ast.Assign) and len(n.targets) == 1 and isinstance(n.targets[0], ast.Name) and n.targets[0].id == it.id]
+                it = lits[0] if len(lits) == 1 else it
+            if not isinstance(it, (ast.Tuple, ast.List)):
+                return None
+            rows = []
+            for el in it.elts:
+                if isinstance(p.target, ast.Name):
+                    rows.append({p.target.id: el})
+                elif isinstance(p.target, (ast.Tuple, ast.List)) and isinstance(el, (ast.Tuple, ast.List)) and len(el.elts) == len(p.target.elts) \
+                        and all(isinstance(t, ast.Name) for t in p.target.elts):
+                    rows.append({t.id: v for t, v in zip(p.target.elts, el.elts)})
+                else:
+                    return None
+            maps = [dict(m, **r) for r in rows for m in maps]
+        p = ctx.prog.parent.get(p)
+    return maps
+
+
 class Row:
-    def __init__(self, call, scope=None):
-        self.call = call
+    def __init__(self, call, scope=None, subst=None):
+        self.call = call            # the statement as written (for reports); loop variables are replaced in a copy
+        if subst:
+            import copy
+            call = _Subst(subst).visit(copy.deepcopy(call))
         self.flags = [const_str(a) for a in call.args]
         kw = {}
         # add_argument(..., **settings) with `settings` a dictionary literal bound once in the same function
@@ -81,6 +121,7 @@ class Parsers:
         self.fn = fn
         self.sub = {}    # variable -> {"names": [...], "rows": [Row], "func": expr|None, "node": call}
         self.main_rows = []
+        self.unreadable = []     # add_argument calls inside loops whose table could not be read
         # the parser may be built in the entry point itself or in helper(s) it calls: every package function that
         # creates sub-parsers is a builder (variables are local to their builder)
         builders = [f for f in ctx.prog.functions.values()
@@ -108,10 +149,15 @@ class Parsers:
             if isinstance(n, ast.Call) and isinstance(n.func, ast.Attribute) and isinstance(n.func.value, ast.Name):
                 var = key(n.func.value.id)
                 if n.func.attr == "add_argument":
-                    if var in self.sub:
-                        self.sub[var]["rows"].append(Row(n, fn.node))
-                    else:
-                        self.main_rows.append(Row(n, fn.node))
+                    inst = loop_instances(self.ctx, fn, n)
+                    if inst is None:
+                        self.unreadable.append(n)
+                        inst = [{}]
+                    for m in inst:
+                        if var in self.sub:
+                            self.sub[var]["rows"].append(Row(n, fn.node, m))
+                        else:
+                            self.main_rows.append(Row(n, fn.node, m))
                 elif n.func.attr == "set_defaults" and var in self.sub:
                     for kw in n.keywords:
                         if kw.arg == "func":
